@@ -2747,6 +2747,16 @@ impl RaftNode {
         let embedding = block.header.delta_embedding.clone();
 
         let mut persistent = self.persistent.write();
+
+        // The role was checked before this lock was taken; a message with a
+        // higher term handled in between makes this node a follower of the new
+        // term. An entry stamped with that term must not be appended by a node
+        // that does not lead it (another node may append its own entry for the
+        // same index and term).
+        if self.leadership.read().role != RaftState::Leader {
+            return Err(ChainError::ConsensusError("not leader".to_string()));
+        }
+
         let index = persistent.array_len_as_log_index() + 1;
         let term = persistent.current_term;
 
